@@ -173,7 +173,16 @@ def gen_cases(rng, tier):
             elif r < .75:
                 ops.append(["t_recip", a])
             elif r < .90:
-                if rng.random() < .5:
+                derived = [i for i, v in enumerate(info) if not v["base"]]
+                if derived and rng.random() < .3:
+                    # a ONE-item term of a derived element and its expansion
+                    i = rng.choice(derived)
+                    e = rng.choice([1, 1, 2, -1])
+                    a = fmt_items([(("a", i), e)])
+                    b = fmt_items([(el, ee * e) for el, ee in info[i]["nd"]])
+                    if rng.random() < .5:
+                        a, b = b, a
+                elif rng.random() < .5:
                     # an equal term by construction: shuffle / split items
                     items = parse_items(a)
                     rng.shuffle(items)
